@@ -75,6 +75,7 @@ ChunkWire(s, i) == IF i > Len(s) THEN 0 ELSE HexLen(s[i]) + 2 + s[i] + 2 + Chunk
 
 Final(r) == r.status >= 200
 IdOf(r) == IF r.id > 0 THEN r.id ELSE r.att
+Closing(r) == r.close \/ (r.minor = 0 /\ ~r.ka)      \* the response announces that the connection ends
 Bodiless(r) == r.status < 200 \/ r.status = 204 \/ r.status = 304
 
 StatusLineOk(r) ==
@@ -201,7 +202,7 @@ Clause(p, e, c) ==
     ELSE IF quiet /\ o.paused THEN (IF lateUp THEN "NoOrphan_UpgradeBodyAfterResponse" ELSE "PausedNobodyHome")
     ELSE IF e.ev = "end" /\ o.closed /\ ~o.pd /\ ~o.bud /\ o.hrun = 0 /\ ~errDone /\ nx > 0
             /\ ~TermBefore(c.items, nx) /\ c.items[nx].k \in {"bad", "poisonP", "poisonF"} /\ c.items[nx].end <= o.d
-            /\ (lf = 0 \/ ~R[lf].close) /\ (Len(R) = 0 \/ R[Len(R)].complete)
+            /\ (lf = 0 \/ ~Closing(R[lf])) /\ (Len(R) = 0 \/ R[Len(R)].complete)
          THEN "BadGets4xxAndClose"      \* the server closed on unparsable input without answering it
     ELSE IF quiet /\ o.w = c.wlen /\ Len(R) > 0 /\ ~R[Len(R)].complete /\ e.ev = "end" THEN "ResponseTruncatedOpen"
     ELSE ""
